@@ -513,8 +513,34 @@ func SelField(info *types.Info, e ast.Expr) *types.Var {
 	return nil
 }
 
+// ResolveAlias, when set (by the rules package), maps a *use* of a local that is a plain alias
+// (`x := y`, defined once) or a parameter of an extracted helper to the identifier it stands for
+// (nil: no alias). IdentObj follows it, so `w := v; use(w)` names v.
+var ResolveAlias func(info *types.Info, id *ast.Ident) *ast.Ident
+
 // IdentObj resolves an identifier expression to its object.
 func IdentObj(info *types.Info, e ast.Expr) types.Object {
+	id, ok := ast.Unparen(e).(*ast.Ident)
+	if !ok {
+		return nil
+	}
+	if ResolveAlias != nil && info.Uses[id] != nil {
+		for i := 0; i < 4; i++ {
+			next := ResolveAlias(info, id)
+			if next == nil || info.Uses[next] == nil {
+				break
+			}
+			id = next
+		}
+	}
+	if o := info.Uses[id]; o != nil {
+		return o
+	}
+	return info.Defs[id]
+}
+
+// IdentObjPlain is IdentObj without alias resolution.
+func IdentObjPlain(info *types.Info, e ast.Expr) types.Object {
 	id, ok := ast.Unparen(e).(*ast.Ident)
 	if !ok {
 		return nil
